@@ -37,9 +37,9 @@ def reference_functions() -> set:
     return _REF_FUNCS
 
 
-def enum_paths(ctx: Ctx, fi: FuncInfo, inline: Iterable[str] = (), **kw) -> List[Path]:
+def enum_paths(ctx: Ctx, fi: FuncInfo, inline: Iterable[str] = (), inline_new: bool = True, **kw) -> List[Path]:
     names = set(inline)
-    ref = reference_functions()
+    ref = reference_functions() if inline_new else set()
     kw.setdefault("max_depth", 4)  # only what the predicate selects is inlined; helpers extracted from helpers need the depth
     en = Enumerator(ctx.index, ctx.resolver, Options(inline=lambda f: f.name in names or f.qualname in names or (bool(ref) and f.qualname not in ref and not f.qualname.endswith(".__init__")), **kw))
     ps = en.function(fi)
